@@ -41,6 +41,7 @@ func (s *Session) AbortTransaction(context.Context) error {
 	// acquire lock
 	s.mutex.Lock()
 	defer s.mutex.Unlock()
+	vhook("session.locked", s.engine, s.txn)
 
 	// check if ended
 	if s.ended {
@@ -83,6 +84,7 @@ func (s *Session) CommitTransaction(context.Context) error {
 	// acquire lock
 	s.mutex.Lock()
 	defer s.mutex.Unlock()
+	vhook("session.locked", s.engine, s.txn)
 
 	// check if ended
 	if s.ended {
@@ -112,6 +114,7 @@ func (s *Session) EndSession(context.Context) {
 	// acquire lock
 	s.mutex.Lock()
 	defer s.mutex.Unlock()
+	vhook("session.locked", s.engine, s.txn)
 
 	// check if ended
 	if s.ended {
